@@ -32,6 +32,7 @@ MIN_REACH = {
     "reloads_checked": {"quick": 300, "thorough": 3000},
     "resows_accepted": {"quick": 15, "thorough": 60},
     "resows_refused": {"quick": 15, "thorough": 60},
+    "identical_resows_accepted": {"quick": 5, "thorough": 20},
 }
 TIME_BUDGET = {"quick": 300, "thorough": 3000}
 
@@ -164,11 +165,17 @@ def run_resow(ctx, case):
     files = cropkit.batch_files(tmp, "c7")
     if err is not None:
         ctx.count("resows_refused")
+        if case["n1"] == case["n0"]:
+            # the very same sow as before (same crop definition, same number of settings): it split fine the first time
+            bad.append("sowing the same %d settings again (%s=%d, %s crop) was refused: %r" % (
+                case["n0"], case["mode"], case["val"], "reloaded" if case["reload"] else "same", err))
         after = cropkit.tree_snapshot(cropkit.crop_dir(tmp, "c7"))
         if {k: v for k, v in after.items() if "batches" in k} != {k: v for k, v in before.items() if "batches" in k}:
             bad.append("a refused re-sow (%r) changed the batch files" % (err,))
     else:
         ctx.count("resows_accepted")
+        if case["n1"] == case["n0"]:
+            ctx.count("identical_resows_accepted")
         want = Counter(probe.canon(p) for p in cropkit.requested_settings(wl(case["n1"])))
         got = Counter()
         sizes = {}
